@@ -21,6 +21,8 @@ func checkC05(c *Check) {
 	c.RuleDoc["R05.4"] = "content hash fed with the delivered bytes before delivery, in order"
 	c.RuleDoc["R05.5"] = "error latch keeps the first error"
 	c.RuleDoc["R05.6"] = "EOF provenance (R06.1)"
+	c.RuleDoc["R05.7"] = "Blocks.close hands the latched (checksum) error to its caller on every branch"
+	c.RuleDoc["R05.8"] = "a pending error of the reading path is never absorbed"
 	p := loadOrTrouble(c, cfgAMD64)
 	if p == nil {
 		return
@@ -32,6 +34,8 @@ func checkC05(c *Check) {
 	ruleContentHashFeed(c, p, "R05.4")
 	ruleErrLatch(c, p, "R05.5")
 	ruleEOFProvenance(c, p, "R05.6", true)
+	ruleBlocksCloseLatch(c, p, "R05.7")
+	ruleErrorsNotAbsorbed(c, p, "R05.8", readerSideFuncs(p), errAbsorbExempt)
 }
 
 func checkC06(c *Check) {
@@ -42,6 +46,8 @@ func checkC06(c *Check) {
 	c.RuleDoc["R06.2"] = "source access only via io.ReadFull / io.CopyN (direct reads are reported by R06.1 as role 'direct')"
 	c.RuleDoc["R06.3"] = "synthetic io.EOF sites and guards"
 	c.RuleDoc["R06.4"] = "end-of-stream branches call CloseR"
+	c.RuleDoc["R06.5"] = "a pending (truncation) error of the reading path is never absorbed: once a source read failed, every path to a return yields a non-nil error"
+	c.RuleDoc["R06.6"] = "Blocks.close hands the latched error of the concurrent decoder to its caller on every branch"
 	p := loadOrTrouble(c, cfgAMD64)
 	if p == nil {
 		return
@@ -49,6 +55,8 @@ func checkC06(c *Check) {
 	ruleEOFProvenance(c, p, "R06.1", true)
 	ruleSyntheticEOF(c, p, "R06.3")
 	ruleEOSCallsCloseR(c, p, "R06.4")
+	ruleErrorsNotAbsorbed(c, p, "R06.5", readerSideFuncs(p), errAbsorbExempt)
+	ruleBlocksCloseLatch(c, p, "R06.6")
 }
 
 // R05.5: closeR stores only when the latch is empty, under the mutex.
